@@ -170,13 +170,25 @@ class C10(Prop):
             'number of get() calls on every source, and that every output fired exactly once are compared with the Lean network '
             'model. Non-trivial = at least one non-empty batch and one derived operation; distinct = distinct canonical case.')
     trusted = ('tornado IOLoop timing (late / merged callbacks) is replaced by one callback invocation per virtual tick',
-               'textFileStream is modelled (FileSrc) and proved, but the campaign drives queue sources only')
+               'monitored directories are driven with files created before / between / after stream creation and ticks; file '
+               'deletion or modification is not exercised')
 
     def setup(self, ctx):
         import pysparkling
         self.ps = pysparkling
 
     def gen(self, rng, tier):
+        if self.focus == 'C10' and rng.random() < .12:
+            names = ['f%d.txt' % i for i in range(8)]
+            rng.shuffle(names)
+            cut = sorted(rng.randint(0, 8) for _ in range(2))
+            pre, between, rest = names[:cut[0]][:3], names[cut[0]:cut[1]][:2], names[cut[1]:]
+            ticks = []
+            for _ in range(rng.randint(1, 4)):
+                k = rng.choice([0, 0, 1, 1, 2])
+                ticks.append(rest[:k])
+                rest = rest[k:]
+            return {'kind': 'files', 'pre': pre, 'between': between, 'ticks': ticks, 'process_all': rng.random() < .3}
         sources, nodes = gen_network(rng, self.focus)
         longest = max([len(s['queue']) for s in sources] + [1])
         return {'sources': sources, 'nodes': nodes, 'ticks': rng.randint(1, longest + 3)}
@@ -194,12 +206,18 @@ class C10(Prop):
               'nodes': [{'kind': 'src', 'q': 0}, {'kind': 'state', 'prev': 0, 'upd': 'sum'}, {'kind': 'out', 'prev': 1},
                         {'kind': 'out', 'prev': 1}], 'ticks': 6}
         allq = dict(diamond, sources=[{'queue': [[1, 2], [3], [4]], 'oneAtATime': False, 'default': [7]}])
-        return [diamond, win, st, allq]
+        files = [{'kind': 'files', 'pre': ['a.txt'], 'between': ['b.txt'], 'ticks': [[], ['c.txt', 'd.txt'], []], 'process_all': pa}
+                 for pa in (False, True)]
+        return [diamond, win, st, allq] + (files if self.focus == 'C10' else [])
 
     def nontrivial(self, case):
+        if case.get('kind') == 'files':
+            return bool(case['between'] or any(case['ticks']))
         return any(b for s in case['sources'] for b in s['queue']) and any(n['kind'] not in ('src', 'out') for n in case['nodes'])
 
     def shrink(self, case):
+        if case.get('kind') == 'files':
+            return
         if case['ticks'] > 1:
             yield dict(case, ticks=case['ticks'] - 1)
         outs = [i for i, n in enumerate(case['nodes']) if n['kind'] == 'out']
@@ -223,7 +241,53 @@ class C10(Prop):
             return rdd.mapPartitions(f)
         return tr
 
+    def run_files(self, case, ctx):
+        import os
+        ps = self.ps
+        self.nfiles = getattr(self, 'nfiles', 0) + 1
+        d = os.path.join(ctx.scratch, 'fs%d' % self.nfiles)
+        os.makedirs(d)
+
+        def create(names):
+            for n in names:
+                with open(os.path.join(d, n), 'w') as f:
+                    f.write(n + '-line\n')
+        ctx.note('node:textFileStream')
+        create(case['pre'])
+        got = []
+        with VirtualStreaming() as vs:
+            try:
+                sc = ps.Context()
+                ssc = ps.streaming.StreamingContext(sc, 1.0)
+                stream = ssc.textFileStream(d + '/*', process_all=case['process_all'])
+                a, b = [], []
+                stream.foreachRDD(self._capture(a))
+                stream.map(lambda x: x).foreachRDD(self._capture(b))      # a second derived stream shares the source
+                create(case['between'])            # files appearing after creation, before the first interval
+                ssc.start()
+                for names in case['ticks']:
+                    create(names)
+                    vs.tick()
+                got = [a, b]
+            except Exception as e:  # pylint: disable=broad-except
+                return Mismatch('file stream raised', exc(e), None, 'C10:files:exc')
+        present = list(case['pre']) + list(case['between'])
+        listings = []
+        for names in case['ticks']:
+            present = present + list(names)
+            listings.append(sorted(os.path.join(d, n) for n in present))
+        done0 = [] if case['process_all'] else sorted(os.path.join(d, n) for n in case['pre'])
+        model = ctx.driver.ask({'p': 'C10', 'op': 'files', 'done0': done0, 'listings': listings})['model']
+        want = [[os.path.basename(n) + '-line' for n in sorted(fresh or [])] for fresh in model]
+        for which, seen in zip(('the stream', 'a derived stream'), got):
+            if seen != want:
+                return Mismatch('monitored directory: lines delivered per interval to %s (every new file exactly once, in the '
+                                'first interval after it appears)' % which, seen, want, 'C10:files')
+        return None
+
     def run_case(self, case, ctx):
+        if case.get('kind') == 'files':
+            return self.run_files(case, ctx)
         ps = self.ps
         for n in case['nodes']:
             ctx.note('node:' + n['kind'])
